@@ -183,7 +183,13 @@ def aba_regression(ctx):
 
 def stats(c, r):
     raw = r['raw']
-    return {'tags_keep_cases': 1 if 'tags=keep' in r['verdict'] else 0,
+    # follow-up C17t: solo monitor (operations during which no other thread produced an event are
+    # checked against Deque.soloBound and the answer of C17_deque_solo_bound)
+    _m = re.search(r'solo=(\d+)/(\d+) solomax=(\d+)/(\d+)', r['verdict'])
+    _solo = [int(x) for x in _m.groups()] if _m else [0, 0, 0, 0]
+    return {'solo_ops_checked': _solo[0], 'solo_ops_with_a_stalled_thread': _solo[1],
+            'solo_push_at_bound_19': 1 if _solo[2] == 19 else 0, 'solo_pop_at_bound_14': 1 if _solo[3] == 14 else 0,
+            'tags_keep_cases': 1 if 'tags=keep' in r['verdict'] else 0,
             'tag_lines': raw.count(' dq.tags '),'anchor_cas_failed': raw.count(' dq.cas 1 0 0'), 'anchor_cas_ok': raw.count(' dq.cas 1 1 0'),
             'link_cas': raw.count(' dq.lcas '), 'link_cas_failed': raw.count(' dq.lcas 1 0 0'),
             'recheck_failed': raw.count(' dq.chk 1 0 0'), 'allocs': raw.count(' dq.alloc '),
@@ -199,7 +205,7 @@ e1check.run(dict(
     # the same directed schedule is a regression test (aba_regression)
     findings=([] if REPAIRED else [dict(id='aba-link', case=ABA_CASE, signature='(duplicate)')]),
     extra_check=extras,
-    props=['C17', 'C17Fifo', 'C17Index'],
+    props=['C17', 'C17Fifo', 'C17Index', 'C17Solo', 'C17IndexSolo'],
     quick=3000, thorough=250000, extra=20000, libs='-latomic',
     rule='random programs (1-4 threads, 1-5 ops each over push_left/right, pop_left/right on one deque, or push(v,other_end)/pop(v,steal) on a lifo/abp_fifo/abp_lifo/fifo back-end), freelist pre-allocation 1-8 nodes, PRNG schedules (uniform / priority / sticky) over the hook points before every anchor load/compare/CAS, link load/store/CAS, alloc and free; the container is drained at the end and compared with the model chain; non-trivial = an anchor CAS failed or a stabilisation link CAS ran; distinct = distinct (program, schedule seed) text',
     assumptions=['the contiguous index queue clauses of C17 are covered by Props/C17Index.lean, audited here, and by an E1 sub-check of the real contiguous_index_queue.hpp against the acceptor `iq` (the same tie also runs in C11)',
@@ -208,6 +214,7 @@ e1check.run(dict(
                  ('this tree carries the repair of the link-tag ABA (alloc_node/push_* keep the link tags across recycling): the unrestricted theorems C17_deque_fixed_* apply (model Deque.stepG true); the directed schedule of the finding is replayed as a regression and thread 0\'s late link CAS must fail'
                   if REPAIRED else
                   'C17_deque_conc is refuted for the pinned tree (machine-checked counterexample C17_deque_conc_refuted, replayed on the real code by findings/C17-aba-link.case, listed in known_findings); the concurrent theorems for the pinned tree carry a hypothesis on the log: no stale link CAS on a live link (harmFreeB, weakest), implied by stale = false, implied by NoRecycledCas (no link CAS succeeds on a node freed under the snapshot)'),
+                 'solo termination (Props/C17Solo.lean, Props/C17IndexSolo.lean) is proved as existence of the bounded solo run from every reachable state with the thread between operations; that the accepted solo run is unique (up to the identity of the allocated node) is not proved - the driver\'s solo monitor tests the bound Deque.soloBound and the answer on every operation of the real runs that no other thread interleaved with',
                  'the repaired model assumes of the freelist that a free node keeps the tag bits of its first word (boost freelist_stack: tagged_ptr::set_ptr) and that fresh memory is zero-filled; both are checked on every run by the acceptor (tags of every link load) and the dq.tags monitor'],
     trusted_extra=['hooks in deque.hpp compute the outcome of each CAS / comparison immediately before the real instruction inside one atomic block of the baton engine'],
 ))
